@@ -84,6 +84,8 @@ var properties = map[string][]harnessSpec{
 		{Name: "input/ast.VerifC04ParseRunes", Quick: map[string]int{"C04.runes": 4}, Thorough: map[string]int{"C04.runes": 5}, Marks: []string{"end", "accepted", "rejected"}, MustTerminate: true},
 	},
 	"C09": {
+		{Name: "cmd.VerifC09CommentRun", Quick: map[string]int{"C09.commentLines": 300}, Thorough: map[string]int{"C09.commentLines": 3000}, Marks: end, MustTerminate: true},
+		{Name: "cmd.VerifC09KeyConvCommand", Quick: map[string]int{"C09.convLetters": 3}, Thorough: map[string]int{"C09.convLetters": 4}, Marks: end},
 		{Name: "input/ast.VerifC04ScanToken", Quick: map[string]int{"C04.window": 4}, Thorough: map[string]int{"C04.window": 6}, Marks: end, MustTerminate: true},
 		{Name: "input/ast.VerifC04ParseRunes", Quick: map[string]int{"C04.runes": 3}, Thorough: map[string]int{"C04.runes": 5}, Marks: end, MustTerminate: true},
 		{Name: "op.VerifC09BPMField", Quick: map[string]int{"C09.maxLen": 3}, Thorough: map[string]int{"C09.maxLen": 5}, Marks: []string{"end", "accepted"}},
